@@ -72,7 +72,7 @@ def cases(tier, seed):
     # [a..b] groups too wide for the exhaustive comparison of the propositional export: every selection of the
     # group's members is judged by its number of selected members (thorough: all 2^n, quick: two per count)
     for (n, a, b) in ((14, 5, 8), (15, 7, 7), (16, 2, 3)) if tier == 'thorough' else ((14, 5, 8),):
-        parts = 256 if tier == 'thorough' else 1     # (a part has to stay well below the 60 s limit of one case)
+        parts = 1024 if tier == 'thorough' else 1     # (a part has to stay well below the 60 s limit of one case, also on a loaded machine)
         for part in range(parts):
             yield ('WG', n, a, b, part, parts)
 
@@ -121,22 +121,35 @@ def selftest():
     plexp.selftest()
 
 
-def _wide_group(case):
-    import itertools
-    _k, n, a, b, part, parts = case
+import functools
+
+
+@functools.lru_cache(maxsize=4)
+def _wide_group_formulas(n, a, b):
+    """Export of the one-group model, parsed once per worker process (the text of a [5..8] group of 14
+    leaves has more than 10 000 conjunctions)."""
     kids = ['G%02d' % i for i in range(n)]
     model = sh.M(sh.F('Fa', [sh.R(a, b, [sh.F(k) for k in kids])]))
     fm, fails = cm.built(model)
     if fails:
-        return fails
+        return kids, None, fails
     try:
         text = PLWriter(engine.tmppath('wg.exp'), fm).transform()
         forms = plexp.parse_lines(text)
         engine.tick()
     except plexp.ExpError as exc:
-        return [Fail('pl-uninterpretable', str(exc)[:200])]
+        return kids, None, [Fail('pl-uninterpretable', str(exc)[:200])]
     except Exception as exc:  # noqa: BLE001
-        return [Fail('pl-write-raises:%s' % type(exc).__name__, str(exc)[:200])]
+        return kids, None, [Fail('pl-write-raises:%s' % type(exc).__name__, str(exc)[:200])]
+    return kids, forms, []
+
+
+def _wide_group(case):
+    import itertools
+    _k, n, a, b, part, parts = case
+    kids, forms, fails = _wide_group_formulas(n, a, b)
+    if fails:
+        return fails
     used = set()
     for f in forms:
         plexp.idents(f, used)
